@@ -42,6 +42,8 @@ TIES = {
     "analyze_prelude": ("_analyze_prelude_probe", [" ", "\t", "\n", "\r", "\x0b", "\x0c", "\xa0", "\u2003", "\u0085", "\u2028", "\ufeff", "a", "ls", ";", "'", "\x00"],
                         (4, 5), (3000, 60000), _ident, None),
     "has_inert_opener": ("_has_inert_opener", ["$(", "`", "'", '"', "\\", "$", "(", "a", " ", ")"], (6, 7), (3000, 60000), _bool, bool),
+    # _match_written_file given match_redirect's answer (first character: A allow, K ask, D deny, N no rule), then the target word
+    "written_rule": ("_written_file_probe", ["$", "`", "*", "?", "[", "{", "a", "/", "..", "~", "]", "}", " ", "'", "\\", "é"], (3, 4), (2000, 40000), _ident, None),
     "plain_raw": ("_is_plain_raw", ["$(", ")", "(", "`", "#", " ", "\n", "'", '"', "\\", "a", ";", "${", "}"], (4, 5), (3000, 60000), _bool, bool),
 }
 
@@ -80,6 +82,25 @@ def run_ties(out, model, names, tier, rng, an=None):
 
             conv = lambda r: r  # noqa: E731
             dec = lambda m: m if isinstance(m, list) else m  # noqa: E731
+        elif attr == "_written_file_probe":
+            # _match_written_file(target, config, cwd) with match_redirect replaced by a constant answer
+            class _M:
+                def __init__(self, d):
+                    self.decision, self.pattern, self.message = d, "p", None
+
+            def f(s, an=an, _M=_M):
+                real = an.match_redirect
+                ans = {"A": "allow", "K": "ask", "D": "deny"}.get(s[:1])
+                an.match_redirect = lambda t, c, d: _M(ans) if ans else None
+                try:
+                    r = an._match_written_file(s[1:], None, None)
+                finally:
+                    an.match_redirect = real
+                return "N" if r is None else {"allow": "A", "ask": "K", "deny": "D"}[r.decision]
+
+            if getattr(an, "_match_written_file", None) is None:
+                f = None
+            conv = lambda r: r  # noqa: E731
         elif ":" in attr:      # a helper of another module of dippy.core
             import importlib
             modname, attr = attr.split(":")
@@ -101,6 +122,8 @@ def run_ties(out, model, names, tier, rng, an=None):
             if s not in seen:
                 seen.add(s)
                 inputs.append(s)
+        if attr == "_written_file_probe":
+            inputs = [p + s for s in inputs for p in "AKDN"]
         bad = 0
         for i in range(0, len(inputs), BATCH):
             chunk = inputs[i:i + BATCH]
